@@ -1,4 +1,4 @@
-import JjModel.Lemmas.RepoWc
+import JjModel.Lemmas.RepoMerge
 /-!
   C11 — Rewrites leave no orphans and references follow.
 
@@ -20,13 +20,20 @@ open JjModel.Repo
 
 /-- `rewritten_ids_with(olds)` = first-occurrence de-duplication of the full transitive expansion
     of `olds` through the mapping, and nothing it returns is itself mapped.
-    (Partial correctness w.r.t. the loop fuel `|olds| + Σ|replacements| + 1`; the correspondence
-    run shows the fuel is never exhausted.) -/
+    (The loop fuel `|olds| + Σ|replacements| + 1` is adequate: `rewritten_ids_fuel_adequate`.) -/
 theorem rewritten_ids_spec {m : Mapping} {pred : Rewrite → Bool} {rank : Nat → Nat}
     (hac : Acyclic m pred rank) {olds ids : List Nat}
     (h : rewrittenIdsWith m pred olds = some ids) :
     ids = dedup (olds.flatMap (leaves m pred rank)) ∧ ∀ y ∈ ids, m.getIf pred y = none :=
   rewrittenIdsWith_spec hac h
+
+/-- **fuel adequacy**: above `|stack| + pending replacements` the fuel of the model's loop is
+    irrelevant; the fuel `rewritten_ids_with` passes is above that bound, so a `none` of the model is
+    always one of the source's `assert!`s, never an exhausted counter. -/
+theorem rewritten_ids_fuel_adequate (m : Mapping) (pred : Rewrite → Bool) (olds : List Nat) (extra : Nat) :
+    rwLoop m pred (olds.length + mappingSize m + 1 + extra) olds [] [] =
+      rwLoop m pred (olds.length + mappingSize m + 1) olds [] [] :=
+  rewrittenIdsWith_fuel m pred olds extra
 
 /-- The `debug_assert_eq!` of `resolve_rewrite_mapping_with`: the topologically resolved entry of
     a key equals the result of the iterative `rewritten_ids_with([key])`. -/
